@@ -82,7 +82,7 @@ def run(ctx):
     cl2 = [(n, c) for n in cc.nodes for c in n.calls() if call_name(c) == "callLater"]
     need(len(nd) == 1 and len(cl2) == 1, "commit back-off kernel not found")
     var = unparse(nd[0].stmt.targets[0])
-    k2 = _min_kernel(prog, hce, nd[0].stmt.value, hce.params[3] if len(hce.params) > 3 else "retry_delay")
+    k2 = _min_kernel(prog, hce, at(ctx, hce, nd[0].id, nd[0].stmt.value), hce.params[3] if len(hce.params) > 3 else "retry_delay")
     c2 = cl2[0][1]
     ok = (k2 is not None and isinstance(k2[0], (int, float)) and k2[0] > 1 and k2[1] == "self.retry_max_delay"
           and len(c2.args) >= 4 and norm(expand(prog, hce, c2.args[0])) == norm(expand(prog, hce, nd[0].stmt.value))
@@ -126,16 +126,22 @@ def run(ctx):
         fh = ctx.facts(h)
         retries = [n for n in ch.nodes if any(call_name(c) == rf.name and call_recv(c) == "self" for c in n.calls())]
         need(retries, "no retry call in %s" % h.qname)
+        # the limit test may be written as one condition, split over nested tests or computed by a predicate: what counts
+        # is what the guard facts imply about "no limit configured" (z) and "attempts used up" (b)
+        lim_atoms = {"z": "self.request_retry_max_attempts == 0", "b": "self._fetch_attempt_count >= self.request_retry_max_attempts"}
         for n in retries:
-            r.check((lim, False) in fh[n.id], "%s#retry-below-limit" % h.qname,
+            r.check((lim, False) in fh[n.id] or facts_imply(prog, h, fh[n.id], lim_atoms, lambda env: env["z"] or not env["b"]),
+                    "%s#retry-below-limit" % h.qname,
                     "retry scheduled without the attempt-limit test having failed", where(h, n.stmt),
                     "more than request_retry_max_attempts consecutive attempts")
-        arm = [n for n in ch.nodes if (lim, True) in fh[n.id]]
+        arm = [n for n in ch.nodes if (lim, True) in fh[n.id] or facts_imply(prog, h, fh[n.id], lim_atoms, lambda env: (not env["z"]) and env["b"])]
         eb = [n for n in arm if any(call_name(c) == "errback" and call_recv(c) == "self._start_d" for c in n.calls())]
         r.check(bool(eb) and not any(n.id in ch.reach([eb[0].id]) for n in retries), "%s#limit-arm" % h.qname,
                 "limit arm does not fail the start Deferred and return", where(h, h.node))
-    incs = [n for n in cf.nodes if n.kind == "stmt" and isinstance(n.stmt, ast.AugAssign) and self_attr(
-        n.stmt.target) == "_fetch_attempt_count" and isinstance(n.stmt.op, ast.Add)]
+    incs = [n for n in cf.nodes if n.kind == "stmt" and ((isinstance(n.stmt, ast.AugAssign) and self_attr(
+        n.stmt.target) == "_fetch_attempt_count" and isinstance(n.stmt.op, ast.Add) and norm(n.stmt.value) == "1") or (
+        node_assign_value(n, "_fetch_attempt_count") is not None and norm(node_assign_value(n, "_fetch_attempt_count")) in (
+            "self._fetch_attempt_count + 1", "1 + self._fetch_attempt_count")))]
     r.check(len(incs) == 1 and cf.dominates([incs[0].id], cl[0][0].id) and not cf.normal_exits_from(
         incs[0].id, avoid=[cl[0][0].id]), "%s#count-per-retry" % rf.qname,
         "attempt count is not incremented exactly with every scheduled retry", where(rf, rf.node))
@@ -166,8 +172,10 @@ def run(ctx):
                         continue
                     cv_ = const_value(prog, hce, e)  # a literal, or a module / class constant
                     pos = isinstance(cv_, int) and not isinstance(cv_, bool) and cv_ > 0
-                    zero_seen = known_falsy(fce[dn], L) and all(norm(e2) == CFG_LIM for _d2, e2 in (value_origins(
-                        cc, [p_ for p_, _l in cc.pred[dn]][0], ast.Name(id=L, ctx=ast.Load()), params=hce.params) or [(0, ast.Constant(value=None))]))
+                    rf_ = resolved_facts(fce[dn])
+                    zero_seen = (CFG_LIM, False) in rf_ or ("not " + CFG_LIM, True) in rf_ or (CFG_LIM + " == 0", True) in rf_ or (
+                        known_falsy(fce[dn], L) and all(norm(e2) == CFG_LIM for _d2, e2 in (value_origins(
+                            cc, [p_ for p_, _l in cc.pred[dn]][0], ast.Name(id=L, ctx=ast.Load()), params=hce.params) or [(0, ast.Constant(value=None))])))
                     if not (pos and zero_seen):
                         break
                 else:
